@@ -240,6 +240,26 @@ def stuck_with_zombies(pid):
         return 0
 
 
+def stuck_without_children(pid):
+    """True if the process sleeps and has no child process at all, alive or dead: with its whole input already available (a file) nothing
+    but a signal from outside can ever wake it again."""
+    try:
+        st = open("/proc/%d/stat" % pid).read().rsplit(")", 1)[1].split()
+        if st[0] != "S":
+            return False
+        for d in os.listdir("/proc"):
+            if d.isdigit():
+                try:
+                    f = open("/proc/%s/stat" % d).read().rsplit(")", 1)[1].split()
+                except (OSError, IndexError):
+                    continue
+                if int(f[1]) == pid:
+                    return False
+        return True
+    except (OSError, IndexError, ValueError):
+        return False
+
+
 def run_proc(argv, env, stdin=b"", timeout=20, cwd="/", extra_fds=None, stdin_file=None, on_timeout=None):
     """Run a program to completion with `stdin` bytes. Children never inherit the check's stdout/stderr.
     Returns (status, stdout_bytes, stderr_bytes); status < 0 = killed by that signal; None = watchdog expired
